@@ -23,6 +23,7 @@ type site struct {
 	Kind  string `json:"kind"`
 	Old   string `json:"old"`
 	New   string `json:"new"`
+	Ctx   string `json:"ctx"` // source text of the enclosing expression or statement
 	start int
 	end   int
 }
@@ -45,8 +46,16 @@ func sites(path string) ([]site, []byte) {
 	}
 	off := func(p token.Pos) int { return fset.Position(p).Offset }
 	var out []site
+	ctx := ""
 	add := func(kind string, s, e int, nw string, pos token.Pos) {
-		out = append(out, site{ID: len(out), Line: fset.Position(pos).Line, Kind: kind, Old: string(src[s:e]), New: nw, start: s, end: e})
+		c := ctx
+		if c == "" {
+			c = string(src[s:e])
+		}
+		if len(c) > 200 {
+			c = c[:200]
+		}
+		out = append(out, site{ID: len(out), Line: fset.Position(pos).Line, Kind: kind, Old: string(src[s:e]), New: nw, Ctx: c, start: s, end: e})
 	}
 	for _, d := range f.Decls {
 		fd, ok := d.(*ast.FuncDecl)
@@ -56,6 +65,8 @@ func sites(path string) ([]site, []byte) {
 		ast.Inspect(fd.Body, func(n ast.Node) bool {
 			switch v := n.(type) {
 			case *ast.BinaryExpr:
+				ctx = string(src[off(v.Pos()):off(v.End())])
+				defer func() { ctx = "" }()
 				if nw, ok := swaps[v.Op]; ok {
 					// string concatenation: leave + alone when an operand is a string literal
 					if v.Op == token.ADD {
